@@ -213,43 +213,43 @@ pub fn check_structure(prop: &str, m: &IMovie, model: &Model, file_end: u64, out
         let kind = mt.cfg.kind.name();
         let n = mt.samples.len() as u64;
         if t.track_id != i as u32 + 1 {
-            v(out, "track_id", format!("kind={kind}"), format!("trak #{i} has track_id {}", t.track_id));
+            v(out, "track_id", String::new(), format!("trak #{i} has track_id {}", t.track_id));
         }
         if t.entry_count != 1 {
-            v(out, "stsd_count", format!("kind={kind}"), format!("stsd entry_count {}", t.entry_count));
+            v(out, "stsd_count", String::new(), format!("stsd entry_count {}", t.entry_count));
         }
         let stts_n: u64 = t.stts.iter().map(|e| e.0 as u64).sum();
         if stts_n != n {
-            v(out, "table_totals", format!("table=stts kind={kind}"), format!("track {}: stts covers {stts_n} samples, {n} written", i + 1));
+            v(out, "table_totals", "table=stts".to_string(), format!("track {}: stts covers {stts_n} samples, {n} written", i + 1));
         }
         if t.stsz_count as u64 != n {
-            v(out, "table_totals", format!("table=stsz kind={kind}"), format!("track {}: stsz count {}, {n} written", i + 1, t.stsz_count));
+            v(out, "table_totals", "table=stsz".to_string(), format!("track {}: stsz count {}, {n} written", i + 1, t.stsz_count));
         }
         if t.stsz_sample_size == 0 && t.stsz_sizes.len() as u64 != t.stsz_count as u64 {
-            v(out, "table_totals", format!("table=stsz_entries kind={kind}"), format!("track {}: stsz count {} but {} entries", i + 1, t.stsz_count, t.stsz_sizes.len()));
+            v(out, "table_totals", "table=stsz_entries".to_string(), format!("track {}: stsz count {} but {} entries", i + 1, t.stsz_count, t.stsz_sizes.len()));
         }
         if let Some((_, c)) = &t.ctts {
             let cn: u64 = c.iter().map(|e| e.0 as u64).sum();
             if cn != n {
-                v(out, "table_totals", format!("table=ctts kind={kind}"), format!("track {}: ctts covers {cn} samples, {n} written", i + 1));
+                v(out, "table_totals", "table=ctts".to_string(), format!("track {}: ctts covers {cn} samples, {n} written", i + 1));
             }
         }
         if let Some(s) = &t.stss {
             let mut prev = 0u32;
             for x in s {
                 if *x <= prev || *x as u64 > n {
-                    v(out, "stss_order_range", format!("kind={kind}"), format!("track {}: stss entry {x} after {prev}, {n} samples", i + 1));
+                    v(out, "stss_order_range", String::new(), format!("track {}: stss entry {x} after {prev}, {n} samples", i + 1));
                     break;
                 }
                 prev = *x;
             }
         }
         match t.chunks() {
-            Err((inv, d)) => v(out, inv, format!("kind={kind}"), format!("track {}: {d}", i + 1)),
+            Err((inv, d)) => v(out, inv, String::new(), format!("track {} ({kind}): {d}", i + 1)),
             Ok(ch) => {
                 let cn: u64 = ch.iter().map(|c| c.nsamples as u64).sum();
                 if cn != n {
-                    v(out, "table_totals", format!("table=stsc kind={kind}"), format!("track {}: chunk map covers {cn} samples, {n} written", i + 1));
+                    v(out, "table_totals", "table=stsc".to_string(), format!("track {}: chunk map covers {cn} samples, {n} written", i + 1));
                 }
                 for c in &ch {
                     let end = c.offset.checked_add(c.bytes);
@@ -258,7 +258,7 @@ pub fn check_structure(prop: &str, m: &IMovie, model: &Model, file_end: u64, out
                         None => false,
                     };
                     if !inside {
-                        v(out, "chunk_outside_mdat", format!("kind={kind}"), format!("track {}: chunk at {} (+{}) not inside any mdat payload {:?}", i + 1, c.offset, c.bytes, m.mdat));
+                        v(out, "chunk_outside_mdat", String::new(), format!("track {}: chunk at {} (+{}) not inside any mdat payload {:?}", i + 1, c.offset, c.bytes, m.mdat));
                         break;
                     }
                     if c.bytes > 0 {
@@ -272,7 +272,7 @@ pub fn check_structure(prop: &str, m: &IMovie, model: &Model, file_end: u64, out
             v(out, "mdhd_duration", format!("version={}", t.mdhd_version), format!("track {}: mdhd duration {} != summed sample durations {media_sum}", i + 1, t.mdhd_duration));
         }
         if t.timescale != mt.cfg.timescale {
-            v(out, "track_timescale", format!("kind={kind}"), format!("track {}: mdhd timescale {} != configured {}", i + 1, t.timescale, mt.cfg.timescale));
+            v(out, "track_timescale", String::new(), format!("track {}: mdhd timescale {} != configured {}", i + 1, t.timescale, mt.cfg.timescale));
         }
         // |tkhd - sum*Tm/Tt| <= 1  <=>  |tkhd*Tt - sum*Tm| <= Tt
         let tt = t.timescale as u128;
